@@ -199,4 +199,175 @@ Proof.
     repeat match type of H with (if ?b then _ else _) = _ => destruct b end; try discriminate; injection H as <-;
     apply set_node_touch.
 Qed.
+
+Ltac ninv :=
+  constructor; unfold set_res, set_node in *; simpl;
+  unfold acked, pend_write, is_commit_ack, is_abort_ack, upd, COMBINE, UPDATE, ZERO in *; simpl in *;
+  unfold upd in *; rewrite ?Nat.eqb_refl in *; simpl in *; intros;
+  repeat match goal with
+  | H : npc_ _ _ = _ |- _ => rewrite H in *
+  | H : inc _ _ = _ |- _ => rewrite H in *
+  | H : outc _ _ = _ |- _ => rewrite H in *
+  end; simpl in *;
+  repeat match goal with
+  | H : _ /\ _ |- _ => destruct H
+  | H : exists _, _ |- _ => destruct H
+  | H : Some _ = Some _ |- _ => injection H; clear H; intros; subst
+  | H : ?a = ?a -> _ |- _ => specialize (H eq_refl)
+  | H : false = true \/ false = true -> _ |- _ => clear H
+  | H : true = true \/ _ -> _ |- _ => specialize (H (or_introl eq_refl))
+  | H : _ \/ true = true -> _ |- _ => specialize (H (or_intror eq_refl))
+  end; subst; simpl in *;
+  repeat match goal with H : csip _ _ = _ |- _ => rewrite H in * end; simpl in *;
+  try discriminate; try congruence; try lia; try tauto; eauto 6.
+
+Lemma node_self_step : forall s n br s', NodeInv s n -> node_step g s n br = Ok s' -> NodeInv s' n.
+Proof.
+  intros s n br s' [Hh Hp Ha Hz Hg Hd] H. unfold node_step in H.
+  destruct (npc_ s n) eqn:Hpc; destruct br as [|[|[|[|[|br]]]]]; simpl in Hh;
+    try (unfold node_send in H; injection H as <-);
+    try (unfold node_ack in H; destruct (outc s (res_of g n)) as [a|] eqn:Ho; [|discriminate];
+         match type of H with (if ?b then _ else _) = _ => destruct b eqn:Hex end; [|discriminate]; cbv beta in H);
+    repeat match type of H with (if ?b then _ else _) = _ => destruct b eqn:? end; try discriminate; try injection H as <-.
+  all: try (destruct Hh as [[Hi Ho'] | [Hi (a' & Ho' & Hok)]]; try congruence).
+  all: try (destruct Hh as [Hi Ho']).
+  all: rewrite ?Hi, ?Ho' in *; simpl in *.
+  all: try (destruct a; try discriminate).
+  all: try solve [ninv].
+Qed.
+
+(* a resource step of r0 touches only r0's cells and variables (and message queues) *)
+Lemma res_step_touch : forall s r0 br t s', res_step g s r0 br t = Ok s' ->
+  (forall r, r <> r0 -> inc s' r = inc s r /\ outc s' r = outc s r /\ csip s' r = csip s r /\
+                        st s' r = st s r /\ rst s' r = rst s r) /\
+  wPend s' = wPend s /\ wAch s' = wAch s /\ npc_ s' = npc_ s.
+Proof.
+  intros s r0 br t s' H. unfold res_step in H.
+  assert (T : forall nt i o rm rq cs stt rs,
+    (forall r, r <> r0 -> i r = inc s r /\ o r = outc s r) ->
+    s' = set_res s r0 nt i o rm rq cs stt rs ->
+    (forall r, r <> r0 -> inc s' r = inc s r /\ outc s' r = outc s r /\ csip s' r = csip s r /\
+                          st s' r = st s r /\ rst s' r = rst s r) /\
+    wPend s' = wPend s /\ wAch s' = wAch s /\ npc_ s' = npc_ s).
+  { intros nt i o rm rq cs stt rs Hio ->. simpl. repeat split; auto; try (apply Hio; assumption);
+      unfold upd; destruct (Nat.eqb_spec r r0); congruence. }
+  destruct br as [|[|[|br]]]; try discriminate.
+  - destruct (inc s r0) as [q|]; [|discriminate].
+    destruct q; try (destruct (negb (csip s r0))); apply reply_fields in H; destruct H as [_ H];
+      (eapply T; [|exact H]); intros r Hr; unfold upd; destruct (Nat.eqb_spec r r0); try congruence; auto.
+  - destruct (net s r0) as [|v rest]; [discriminate|]. injection H as H. symmetry in H. eapply T; [|exact H]. auto.
+  - destruct (rem_ s r0); [discriminate|]. destruct t as [t|]; [|discriminate].
+    destruct (negb (existsb _ _)); [discriminate|]. destruct (negb (is_res g t)); [discriminate|].
+    destruct (Nat.ltb _ _); [|discriminate]. injection H as H. symmetry in H. eapply T; [|exact H]. auto.
+Qed.
+
+Lemma res_self_step : forall s n br t s', MInv s -> NodeInv s n ->
+  res_step g s (res_of g n) br t = Ok s' -> NodeInv s' n.
+Proof.
+  intros s n br t s' M [Hh Hp Ha Hz Hg Hd] H. unfold res_step in H.
+  destruct br as [|[|[|br]]]; try discriminate.
+  - destruct (inc s (res_of g n)) as [q|] eqn:Hi; [|discriminate].
+    assert (Hq : expect_req (npc_ s n) = Some q /\ outc s (res_of g n) = None).
+    { destruct (expect_req (npc_ s n)) as [q'|].
+      - destruct Hh as [[A B0]|[A _]]; [|discriminate]. injection A as <-. auto.
+      - destruct Hh as [A _]. discriminate. }
+    destruct Hq as [Hq Ho].
+    destruct (npc_ s n) eqn:Hpc; try discriminate; injection Hq as <-;
+      try (destruct (negb (csip s (res_of g n))) eqn:Hcs; [apply negb_true_iff in Hcs|apply negb_false_iff in Hcs]);
+      apply reply_fields in H; destruct H as [_ ->].
+    all: try solve [ninv].
+  - (* merge: the replica's own component cannot grow from a peer's value *)
+    destruct (net s (res_of g n)) as [|v rest] eqn:Hn; [discriminate|]. injection H as <-.
+    assert (Hv : v (res_of g n) <= st s (res_of g n) (res_of g n)).
+    { apply (m_net _ M (res_of g n)). rewrite Hn. left. reflexivity. }
+    assert (E : Nat.max (v (res_of g n)) (st s (res_of g n) (res_of g n)) = st s (res_of g n) (res_of g n)) by lia.
+    constructor; unfold set_res; simpl; unfold acked, pend_write, COMBINE, upd in *; simpl;
+      rewrite ?Nat.eqb_refl; rewrite ?E; auto.
+  - destruct (rem_ s (res_of g n)); [discriminate|]. destruct t as [t|]; [|discriminate].
+    destruct (negb (existsb _ _)); [discriminate|]. destruct (negb (is_res g t)); [discriminate|].
+    destruct (Nat.ltb _ _); [|discriminate]. injection H as <-.
+    constructor; unfold set_res; simpl; unfold acked, pend_write, upd in *; simpl; rewrite ?Nat.eqb_refl; auto.
+Qed.
+
+(* all nodes *)
+Definition NInv (s : state) : Prop := forall n, 1 <= n <= K g -> NodeInv s n.
+
+Lemma ninv_step : forall s e s', MInv s -> NInv s -> step g s e = Ok s' -> NInv s'.
+Proof.
+  intros s e s' M NI H n Hn. specialize (NI n Hn) as In.
+  destruct e as [r0 br t|n0 br]; simpl in H.
+  - destruct (is_res g r0) eqn:Hr; [|discriminate].
+    destruct (Nat.eq_dec r0 (res_of g n)) as [->|Hne].
+    + eapply res_self_step; eauto.
+    + destruct (res_step_touch s r0 br t s' H) as (T & Ep & Ea & Ec).
+      destruct (T (res_of g n) ltac:(congruence)) as (A1 & A2 & A3 & A4 & A5).
+      apply (node_frame s s' n); auto; try congruence.
+  - destruct (is_node g n0) eqn:Hn0; [|discriminate].
+    destruct (Nat.eq_dec n0 n) as [->|Hne].
+    + eapply node_self_step; eauto.
+    + destruct (node_step_touch s n0 br s' H) as (A1 & A2 & A3 & A4 & A5).
+      assert (Hr : res_of g n <> res_of g n0) by (intros E; apply res_of_inj in E; congruence).
+      destruct (A4 _ Hr) as [B1 B2]. destruct (A5 n ltac:(congruence)) as (C1 & C2 & C3).
+      apply (node_frame s s' n); auto; try congruence.
+Qed.
+
+Theorem invariants_reachable : forall s, reachable g s -> MInv s /\ NInv s.
+Proof.
+  intros s R. induction R as [|s e s' R [M NI] H].
+  - split; [apply m_init|intros n _; apply n_init].
+  - split; [eapply m_step; eauto|eapply ninv_step; eauto].
+Qed.
+
+(* ------------------------------------------------------------------ the bound StateSanity intends *)
+
+(* a replica's own component never exceeds the writes its node has issued *)
+Lemma own_component_bounded : forall s, reachable g s -> forall n, 1 <= n <= K g ->
+  st s (res_of g n) (res_of g n) <= wAch s n + wPend s n.
+Proof.
+  intros s R n Hn. destruct (invariants_reachable s R) as [_ NI]. pose proof (n_ach _ _ (NI n Hn)) as H.
+  destruct (is_commit_ack _); lia.
+Qed.
+
+Lemma sum_shift : forall (f h : nat -> nat) k a, (forall n, 1 <= n <= a -> f (k + n) <= h n) ->
+  fold_right (fun r acc => f r + acc) 0 (seq (k + 1) a) <= fold_right (fun n acc => h n + acc) 0 (seq 1 a).
+Proof.
+  intros f h k a. revert k. induction a as [|a IH] using nat_ind; intros k H; [simpl; lia|].
+  (* peel the LAST element on both sides *)
+  rewrite !seq_S. rewrite !fold_right_app. simpl.
+  assert (G1 : forall (l : list nat) (x : nat) (F : nat -> nat), fold_right (fun r acc => F r + acc) x l = fold_right (fun r acc => F r + acc) 0 l + x).
+  { intros l x F. induction l as [|y l IHl]; simpl; [lia|]. rewrite IHl. lia. }
+  rewrite (G1 (seq (k + 1) a) _ f), (G1 (seq 1 a) _ h).
+  specialize (IH k ltac:(intros n Hn; apply H; lia)). specialize (H (S a) ltac:(lia)).
+  replace (k + 1 + a) with (k + S a) by lia. lia.
+Qed.
+
+(* no replica shows more than the writes the nodes have issued (pending + achieved) *)
+Lemma state_sanity_intended_lemma : forall s, reachable g s ->
+  forall r, VIEW g (st s r) <= total_writes g s.
+Proof.
+  intros s R r. destruct (invariants_reachable s R) as [M _]. unfold VIEW, total_writes, resources.
+  apply (sum_shift (st s r) (fun n => wPend s n + wAch s n) (K g) (K g)).
+  intros n Hn. pose proof (m_st _ M r (K g + n)). pose proof (own_component_bounded s R n Hn).
+  unfold res_of in *. lia.
+Qed.
+
+Lemma state_sanity_intended_bool : forall s, reachable g s -> state_sanity_intended g s = true.
+Proof.
+  intros s R. unfold state_sanity_intended. apply forallb_forall. intros r _. apply Nat.leb_le.
+  apply state_sanity_intended_lemma. exact R.
+Qed.
+
+(* the Node process never finds an acknowledgement of the wrong kind (its asserts), and ACRDTResource's
+   `assert FALSE` branch is unreachable in the typed model by construction of `req` *)
+Lemma node_assertion_free_lemma : forall s n br, reachable g s -> 1 <= n <= K g -> node_step g s n br <> AssertFail.
+Proof.
+  intros s n br R Hn. destruct (invariants_reachable s R) as [_ NI]. pose proof (n_hs _ _ (NI n Hn)) as Hh.
+  unfold node_step. destruct (npc_ s n) eqn:Hpc; simpl in Hh; destruct br as [|[|[|[|[|br]]]]];
+    try (unfold node_send; discriminate);
+    try (unfold node_ack; destruct Hh as [[_ Ho]|[_ (a & Ho & Hok)]]; rewrite Ho; [discriminate|];
+         destruct a; try discriminate; cbv beta;
+         repeat match goal with |- context [if ?b then _ else _] => destruct b end; discriminate);
+    try discriminate;
+    repeat match goal with |- context [if ?b then _ else _] => destruct b end; discriminate.
+Qed.
 End WithConfig.
